@@ -124,6 +124,13 @@ def gen_case(rng, params, idx):
         for m in spec["methods"]:
             for k in m.get("kw", []):
                 k["req"] = False
+    if scn == "miss_same" and (strat == "sweep" or (idx // len(SCENARIOS)) % 2 == 0):
+        # racing the same cache miss on a type whose methods *delegate*: the entries call_next relies on must be there
+        # by the time the entry for the call itself can be hit by the other thread
+        for m in spec["methods"]:
+            if m["kind"] in ("leaf", "rec") and rng.random() < 0.85:
+                m["kind"] = "next"
+        spec["delegating_methods_on_racing_miss"] = True
     if scn == "hit_same" or (scn == "dependent" and rng.random() < 0.5):
         # user class predicates inside value-dependent combinations: the generated check asks them per argument class
         spec["methods"][0]["pos"][0]["t"] = rng.choice([
@@ -181,7 +188,7 @@ def gen_case(rng, params, idx):
         spec["racing_hits"] = True
     spec.update(scenario=scn, strategy=strat, calls=[c0, c1, c2], warm=warm,
                 probes=[cg.call(rng, p_kw=pk) for _ in range(6)], seed=rng.randrange(1 << 30),
-                sweep_stride=params["sweep_stride"], nrandom=params["random"], nraw=params["raw"])
+                sweep_stride=1 if spec.get("delegating_methods_on_racing_miss") else params["sweep_stride"], nrandom=params["random"], nraw=params["raw"])
     if type_second:
         for c in spec["probes"] + [spec["warm"]]:
             if len(c["pos"]) == 2:
